@@ -428,3 +428,60 @@ def rule_required_options(ctx, rid):
             else:
                 ctx.ok(rid, key, "always Some(..) (%d constructions on %d paths)" % (len({o[1] for o in obs}), len(obs)))
     ctx.floor(rid, "required_option_constructions", n, 1)
+
+
+def rule_units_decision(ctx, rid):
+    """the importer's unit recognition, evaluated for every database unit the exporter writes"""
+    from analysis import evalterm as ev
+    F = ctx.F
+    ctx.rule(rid, "for every database unit the exporter can write, the importer's recognition (its comparisons, in their order, with their tolerances) returns the Units it was written for: evaluated over the finite set of exported constants")
+    ef = export_lib_fn(F)
+    imf = select(F, PFX, [IMP, r"^&gds21::GdsUnits$"], r"Result<data::Units,")
+    if ef is None or len(imf) != 1:
+        ctx.error(rid, "export_lib / import_units not found")
+        return
+    et = exporter_unit_table(F, ef)
+    f = imf[0]
+    try:
+        paths, trunc = ev.summaries(f, follow_errors=True)
+    except Exception:
+        paths, trunc = [], True
+    n = 0
+    for v, e in sorted(et.items()):
+        if e[1] is None:
+            continue
+        val = e[1]
+
+        def leaf(t, val=val):
+            c = float_const(t)
+            if c is not None:
+                return c
+            if t[0] == "call" and t[1] and re.search(r"GdsUnits::db_unit$", t[1]):
+                return val
+            if t[0] == "f" and t[1] == ("param", 2):
+                return val
+            return None
+        hits = []
+        undecided = False
+        for facts, ret in paths:
+            try:
+                if not ev.facts_hold({k: fv for k, fv in facts.items() if k[0] == "val"}, leaf, strict=True):
+                    continue
+            except ev.NotEvaluable:
+                undecided = True
+                continue
+            found = gc.find_terms(ret, lambda x: x[0] == "agg" and isinstance(x[1], str) and x[1].startswith("layout21raw::data::Units::")) if ret else []
+            hits.append(found[0][1].split("::")[-1] if found else None)
+        if undecided or trunc or not paths:
+            # the recognition is not a ladder of comparisons the evaluator can follow (e.g. a table searched with a closure):
+            # no verdict from this rule; R07.2 still compares the constants
+            ctx.note(rid, "Units::%s: importer recognition not evaluable as a decision list (no verdict)" % v)
+            continue
+        n += 1
+        got = sorted({h for h in hits if h})
+        key = "decision/%s" % v
+        if got == [v]:
+            ctx.ok(rid, key, "%g m is recognised as %s" % (val, v))
+        else:
+            ctx.violation(rid, key, "a %s library is exported with database unit %g m, which the importer recognises as %s: the comparisons are tried in an order / with tolerances that let another unit's test accept it first" % (v, val, got or "nothing"), "%s:%d" % (f.sp[0], f.sp[1]), key)
+    ctx.count(rid + "_units_evaluated", n)
